@@ -26,7 +26,7 @@ def build(chk):
     def ob(oid, func, desc, variant='exact', defines=(), **kw):
         return e.ob(oid, 'c17/divmod.c' if variant == 'ub' else H, func, desc, variant=variant, defines=types + tuple(defines), **kw)
     chk.add(ob('O1.floor_ceil_trunc_float', 'h_floor_ceil_trunc_f', 'floor/ceil/trunc(float) equal the mathematical functions for every float of magnitude below 2^31', bounds='all floats with |x| < 2^31', timeout=180, backends=('kissat', 'cadical', 'minisat')))
-    chk.add(ob('O1.floor_ceil_trunc_double', 'h_floor_ceil_trunc_d', 'floor/ceil/trunc(double) for every double of magnitude below 2^31', bounds='all doubles with |x| < 2^31', timeout=600, backends=('kissat', 'cadical'), tier='thorough', core=False))
+    chk.add(ob('O1.floor_ceil_trunc_double', 'h_floor_ceil_trunc_d', 'floor/ceil/trunc(double) for every double whose floor and ceil are representable as int', bounds='all doubles with |x| <= 2^31 - 1', timeout=600, backends=('kissat', 'cadical', 'minisat')))
     for b, tier in ((256, 'quick'), (4096, 'thorough')):
         chk.add(ob('O2.divs_mods.bound%d' % b, 'h_divs_mods', 'divs/mods are truncating division with x = y*divs + mods; no signed overflow on the path', variant='ub', defines=('BND=%d' % b,), bounds='|x|,|y| <= %d, y != 0 (full 32-bit range: no back end decides it)' % b, timeout=300, backends=('kissat', 'cadical', 'minisat'), tier=tier, core=(tier == 'quick')))
         chk.add(ob('O2.divp_modp.bound%d' % b, 'h_divp_modp', 'x = y*divp + modp with 0 <= modp < |y|; no signed overflow on the path', variant='ub', defines=('BND=%d' % b,), bounds='|x|,|y| <= %d, y != 0' % b, timeout=300, backends=('kissat', 'cadical', 'minisat'), tier=tier, core=(tier == 'quick')))
